@@ -9,9 +9,12 @@
 (*                        the body received exactly the (normalized) bound values         *)
 (*   Variant(what, n, exc)  a call that differs from the group in one value's type or in   *)
 (*                        the context arguments executed n bodies                           *)
+(*   Nested(ctx, at, n)     a call of top -> mid -> leaf entered at `at` under the context       *)
+(*                        dictionary ctx ("A" | "B" | "none"): the body of leaf ran n times: once     *)
+(*                        for every context dictionary, wherever the chain is entered                  *)
 EXTENDS Naturals, Sequences, TLC
 
-AInit(cfg) == [called |-> FALSE]
+AInit(cfg) == [called |-> FALSE, seen |-> {}]
 Clauses(st, e) ==
   CASE e.op = "Key" -> <<
          <<"key_is_sha256_of_canonical_json_of_effective_kwargs", e.keyok>> >>
@@ -22,8 +25,12 @@ Clauses(st, e) ==
     [] e.op = "Variant" -> <<
          <<"call_raises_nothing", e.exc = "">>,
          <<"different_value_type_or_context_is_a_different_call", e.n = 1>> >>
+    [] e.op = "Nested" -> <<
+         <<"call_raises_nothing", e.exc = "">>,
+         <<"context_arguments_of_the_caller_key_the_nested_calls", e.n = IF e.ctx \in st.seen THEN 0 ELSE 1>> >>
     [] OTHER -> << <<"known_event", FALSE>> >>
 AOk(st, e)  == \A i \in 1..Len(Clauses(st, e)) : Clauses(st, e)[i][2]
 AWhy(st, e) == {Clauses(st, e)[i][1] : i \in {j \in 1..Len(Clauses(st, e)) : ~Clauses(st, e)[j][2]}}
-AStep(st, e) == IF e.op = "Call" THEN [called |-> TRUE] ELSE st
+AStep(st, e) == IF e.op = "Call" THEN [st EXCEPT !.called = TRUE]
+                ELSE IF e.op = "Nested" THEN [st EXCEPT !.seen = @ \cup {e.ctx}] ELSE st
 =============================================================================
